@@ -291,8 +291,53 @@ def correspondence(multi, res, raw):
     for ms, os_ in zip(val, ods):
         if (ms["rows"], ms["cols"]) != (os_["nrows"], os_["ncols"]):
             out.append(f"sheet {ms['name']!r}: size {os_['nrows']} x {os_['ncols']}, model {ms['rows']} x {ms['cols']}")
-        for r, c, txt in l5.compare_sheet(ms, os_, check_extra=True)[:6]:
+        for r, c, txt in compare_values(ms, os_)[:6]:
             out.append(f"sheet {ms['name']!r} cell ({r},{c}): {txt}")
+    return out
+
+
+def value_mismatch(p, cell):
+    """l5.cell_mismatch on the VALUE a cell shows: a hyperlink is looked through on both sides (which cells are links and
+    where they lead is C19's projection, see link_correspondence)"""
+    from decimal import Decimal
+    inner = p[3] if p[0] == "link" else p
+    f = cell[2] if cell else None
+    m = l5.LINK_RE.match(f) if f else None
+    if not m:
+        return l5.cell_mismatch(inner, cell)
+    txt = m.group(4)
+    if inner[0] in ("num", "int"):
+        try:
+            got = Decimal(txt)
+        except Exception:  # noqa: BLE001
+            return f"hyperlink payload {txt!r} is not a number"
+        want = l5.dec_of(inner[1], inner[2]) if inner[0] == "num" else Decimal(inner[1])
+        return None if got == want else f"hyperlink payload {txt} differs from {want}"
+    if inner[0] == "str":
+        return None if txt == f'"{inner[1]}"' else f"hyperlink payload {txt!r}, expected {inner[1]!r}"
+    if inner[0] == "ts":
+        w = l5.render_ts(inner[1], inner[2])
+        return None if txt == f'"{w}"' else f"hyperlink payload {txt!r}, expected {w!r}"
+    if inner[0] == "empty":
+        return None if txt == '""' else f"hyperlink payload {txt!r}, expected nothing"
+    return f"unsupported payload {inner} under a hyperlink"
+
+
+def compare_values(model_sheet, ods_sheet):
+    """every cell the model writes shows the model's value; every non-empty cell of the file was written by the model"""
+    out = []
+    cells = {(r, c): (t, v, f) for r, c, t, v, f in ods_sheet["cells"]}
+    fin = l5.final_cells(model_sheet["writes"])
+    for (r, c), p in sorted(fin.items()):
+        if r >= ods_sheet["nrows"] or c >= ods_sheet["ncols"]:
+            out.append((r, c, f"model writes outside the sheet ({ods_sheet['nrows']} x {ods_sheet['ncols']})"))
+            continue
+        mm = value_mismatch(p, cells.get((r, c)))
+        if mm:
+            out.append((r, c, mm))
+    for (r, c), cell in sorted(cells.items()):
+        if (r, c) not in fin:
+            out.append((r, c, f"cell holds {cell[1]!r} {cell[2]!r} but nothing should be written there"))
     return out
 
 
